@@ -386,7 +386,10 @@ class Engine:
     def empty_list(self, elty: T.Ty) -> SV:
         t = T.List(elty)
         s = self.w.sort(t)
-        arr = self.w.fresh_sort(z3.ArraySort(z3.IntSort(), self.w.sort(elty)), "nil")
+        # one canonical (unobservable) cell array per element sort: every empty list is the same term, in the code and in
+        # the contracts alike
+        asort = z3.ArraySort(z3.IntSort(), self.w.sort(elty))
+        arr = z3.Const(f"nil<{self.w.sort(elty)}>", asort)
         return SV(s.constructor(0)(z3.IntVal(0), arr), t, fresh=True)
 
     def dct(self, sv: SV):
